@@ -235,6 +235,7 @@ class Runner:
             if r.get('bounded'):
                 chk.bounded.append(r['bounded'])
         broken_funcs = set(v.func for v in self.violations if v.reproduced)
+        t_start = time.time()       # (the generation budget covers VC generation only, not the run time of the bounded stand-ins above)
         # lemmas
         if chk.lemmas:
             prove_lemmas(ip, self.specs, set(chk.lemmas))
